@@ -179,12 +179,14 @@ impl Obj {
     pub fn sysfn(&mut self, a: i8);
     #[address(0x409000), calling_convention("thiscall")]
     pub fn tfn(a: f32) -> f64;
+    #[address(0x40a000)]
+    pub fn shadow(&self, f: u32, this: u32, address: u64) -> u32;
 }
 "##.to_string())]));
 
     c.push(("vftable", vec![("m", r##"
 pub type V {
-    #[size(6)]
+    #[size(7)]
     vftable {
         /// slot doc
         pub fn a(&self, x: u32) -> u32;
@@ -192,6 +194,7 @@ pub type V {
         fn b(&mut self, p: *const V);
         #[calling_convention("stdcall")]
         pub fn c(&self) -> *const u8;
+        pub fn vshadow(&self, f: u32, this: *const V) -> u32;
     },
     pub data: u32,
     pub data2: u32,
